@@ -514,3 +514,47 @@ def c14j(ctx):
     rets = returns_of(fn.node)
     ctx.check(any(isinstance(r.value, ast.List) and len(r.value.elts) == 1 for r in rets if r.value is not None),
               'flatten_to_polygons:single-polygon', 'a single polygon is its own one-element list', fn)
+
+
+@rule('C14.k', floor=2)
+def c14k(ctx):
+    """a source whose picture has holes is not opaque: a WMS source with a `transparent_color` keys that colour out of every map it
+    returns, so the layers below show through -- it must not count as opaque (opaque layers prune everything below them before
+    anything is rendered).  The constructor marks such a source transparent (`image_opts.transparent = True` under
+    `transparent_color`), which is what is_opaque reads -- or is_opaque asks for the colour key itself"""
+    init = ctx.fn('mapproxy/source/wms.py:WMSSource.__init__')
+    g = init.cfg
+    marks = g.find_stmts(lambda s: isinstance(s, ast.Assign) and unparse(s.targets[0]) == 'self.image_opts.transparent' and const_value(s.value, 0) is True)
+    keyed = lambda at: at.op is None and unparse(at.expr) in ('self.transparent_color', 'transparent_color')      # noqa: E731
+    in_init = bool(marks) and any(g.guarded(n, keyed, True) for n in marks) and \
+        bool(g.guard_edges(keyed, True)) and all(any(n in g.reachable(d) for n in marks) for s_, d in g.guard_edges(keyed, True))
+    op = ctx.fn('mapproxy/source/wms.py:WMSSource.is_opaque')
+    go = op.cfg
+    falses = go.find_stmts(lambda s: isinstance(s, ast.Return) and const_value(s.value, 1) is False)
+    in_opaque = any(go.guarded(n, lambda at: at.op is None and unparse(at.expr) == 'self.transparent_color', True) for n in falses)
+    ctx.check(in_init or in_opaque, 'WMSSource:colour-keyed-source-is-not-opaque', 'a source with transparent_color is marked transparent (or is_opaque tests the colour key)', init,
+              fail='a WMS source with a transparent_color still counts as opaque: the layers below it are pruned and the keyed-out areas show the '
+                   'background instead')
+    reads = [x for x in op.walk() if isinstance(x, ast.Attribute) and unparse(x) == 'self.image_opts.transparent']
+    ctx.check(bool(reads) or in_opaque, 'WMSSource.is_opaque:reads-the-mark', 'is_opaque answers False for a source marked transparent', op)
+
+
+@rule('C14.l', floor=7)
+def c14l(ctx):
+    """combining adjacent requests never changes the picture: the source that stands in for two compatible sources behaves like
+    each of them -- _is_compatible demanded that coverage, resolution range, SRS and format lists, colour key and image options are
+    equal, and combined_layer hands every one of them to the combined source (a combined source without the coverage is neither
+    clipped nor limited to it)"""
+    fn = ctx.fn('mapproxy/source/wms.py:WMSSource.combined_layer')
+    ctors = [x for x in fn.walk() if is_call(x, 'WMSSource')]
+    if not ctors:
+        raise Undecided('combined_layer: WMSSource construction not found')
+    init = ctx.fn('mapproxy/source/wms.py:WMSSource.__init__')
+    pos = {p: i - 1 for i, p in enumerate(init.params)}         # without self
+    for attr in ('image_opts', 'transparent_color', 'transparent_color_tolerance', 'supported_srs', 'supported_formats', 'res_range', 'coverage'):
+        ok = True
+        for x in ctors:
+            v = keyword(x, attr, pos.get(attr))
+            ok = ok and v is not None and unparse(v) == 'self.' + attr
+        ctx.check(ok, 'WMSSource.combined_layer:hands-on-%s' % attr, 'the combined source gets %s of the sources it replaces' % attr, fn,
+                  fail='the combined WMS source is built without %s=self.%s: combining two adjacent layers changes what is rendered' % (attr, attr))
